@@ -4,20 +4,26 @@ sys.path.insert(0, os.path.join(os.environ.get('VERIF_ROOT', '/verif'), 'engine'
 import mp  # noqa: E402
 
 META = dict(
-    engine='mp',
-    technique='explicit enumeration of a finite box: every setting of the four request-window parameters in {1,2,3,default}^4 x 2..4 processes, each executed as a real multi-process run of a scripted AM / put / get workload on the real communication engine with an exactly-once / byte-exact oracle on every rank',
-    level_text='For every point of the box (runtime_comm_mpi_am_posted_requests, _am_tested_requests, _dynamic_requests, _dynamic_recv_requests each in {1,2,3,default}; 2, 3 and 4 MPI processes) the real parsec_mpi_funnelled.c engine is initialised, three harness tags plus a control tag are registered, and every rank runs a deterministic script: all-to-all streams of active messages of sizes 0,1,2,3,.. up to the registered length (incl. a 1001-byte tag, sizes on both sides of the 4096-byte eager limit and 64 KiB), bursts several times longer than the posted receive pool, put and get transfers of 0, 1, 4 KiB (1 MiB and 4 MiB on the rows named in NOTES.md) issued in numbers exceeding the dynamic request limit so that requests overflow into the engine\'s pending queues, and a mixed phase with everything at once. Every rank checks: each scripted message delivered exactly once to the callback of its own tag with identical bytes and size, nothing unscripted delivered, each put/get completion signalled exactly once on both sides, the target window byte-identical to the source when completion is signalled, guard bytes around every window untouched (also at the end), source buffers unmodified, every phase terminates.',
-    level_note='E5: message timing and MPI completion order are NOT controlled; the enumeration is exhaustive over configurations x process counts x the scripted workload only, each point executed once per run (OpenMPI 4.1.4, ob1/vader shared memory). Usage contracts respected by the script: tags are registered before enable(); put is only called when can_serve() (as remote_dep_mpi.c does); remote displacements are 0 and size equals the registered size (the engine ignores both); rendezvous-size active messages are never sent in both directions between two ranks at once (send_am is a blocking MPI_Send); simultaneous gets in both directions between two ranks are issued only when dynamic_recv_requests < dynamic_requests - otherwise the engine can deadlock (known finding C14-get-recv-window-deadlock, reproduced by a dedicated run). Configurations after the first one of a launch reuse the process through the engine\'s own fini/init cycle; any failure is re-run alone in a fresh launch. Tier 2 of DESIGN.md (virtual MPI with explorer-chosen completion order) is not built.',
+    engine='mp+vranks',
+    technique='(1) explicit enumeration of a finite box: every setting of the four request-window parameters in {1,2,3,default}^4 x 2..4 processes, each executed as a real multi-process run of a scripted AM / put / get workload on the real communication engine with an exactly-once / byte-exact oracle on every rank; (2) explicit-state search of the real engine (parsec_mpi_funnelled.c compiled twice into one process = 2 virtual ranks) over a virtual MPI whose message completion / reporting order and the interleaving of the ranks\' calls are owned by the explorer: depth-first over choice sequences with replay from fresh engines, states identified by per-rank observation hashes, run to closure on small scripts and with a bound on the number of non-default choices on larger ones',
+    level_text='Tier 1 (legs ce-box-n*): for every point of the box (runtime_comm_mpi_am_posted_requests, _am_tested_requests, _dynamic_requests, _dynamic_recv_requests each in {1,2,3,default}; 2, 3 and 4 MPI processes) the real parsec_mpi_funnelled.c engine is initialised, three harness tags plus a control tag are registered, and every rank runs a deterministic script: all-to-all streams of active messages of sizes 0,1,2,3,.. up to the registered length (incl. a 1001-byte tag, sizes on both sides of the 4096-byte eager limit and 64 KiB), bursts several times longer than the posted receive pool, put and get transfers of 0, 1, 4 KiB (1 MiB and 4 MiB on the rows named in NOTES.md) issued in numbers exceeding the dynamic request limit so that requests overflow into the engine\'s pending queues, and a mixed phase with everything at once. Every rank checks: each scripted message delivered exactly once to the callback of its own tag with identical bytes and size, nothing unscripted delivered, each put/get completion signalled exactly once on both sides, the target window byte-identical to the source when completion is signalled, guard bytes around every window untouched (also at the end), source buffers unmodified, every phase terminates. '
+               'Tier 2 (legs vmpi-*): for 2 ranks, window parameters in {1,2,3} and small scripts (1-4 active messages of 0 / small / exactly the registered length on 1-2 tags, incl. rendezvous-size ones, and 0-4 put / get transfers of 0, 1 or 4096 bytes per run) the same oracle, the usage checks of the virtual MPI (stale or foreign request handles, restarting an active persistent receive, truncation, a progress() that spins), the engine\'s own assertions, absence of a stuck state with an unfinished script and emptiness of the virtual MPI at the end are decided for EVERY interleaving of the two ranks\' engine calls (next script call / one progress() call) and EVERY order in which MPI may report completed requests (each MPI_Testsome reports any subset of the completed requests of its array) - legs vmpi-am and vmpi-xfer: search run to closure; legs vmpi-dev: all runs with at most d choices different from the default (deliver everything at once, in order), d as stated in the evidence. Leg vmpi-conformance: the deviation-free run of a sample of the same scripts is re-executed step by step on the real engine over the real MPI (one 2-process launch) and must produce the same callbacks in the same order on both ranks.',
+    level_note='E5 legs: message timing and MPI completion order are NOT controlled; the enumeration is exhaustive over configurations x process counts x the scripted workload only, each point executed once per run (OpenMPI 4.1.4, ob1/vader shared memory). Usage contracts respected by the scripts: tags are registered before enable(); put is only called when can_serve() (as remote_dep_mpi.c does); remote displacements are 0 and size equals the registered size (the engine ignores both); rendezvous-size active messages are never sent in both directions between two ranks at once (send_am is a blocking MPI_Send); simultaneous gets in both directions between two ranks are issued only when dynamic_recv_requests < dynamic_requests - otherwise the engine can deadlock (known finding C14-get-recv-window-deadlock, reproduced by a dedicated run). Configurations after the first one of a launch reuse the process through the engine\'s own fini/init cycle; any failure is re-run alone in a fresh launch. '
+               'Virtual-MPI legs - what the model assumes: 2 ranks; one thread per rank calls the engine; matching is MPI\'s ordered matching per (source, communicator, tag) (mpi_assert_allow_overtaking on the data communicator is accepted and ignored: ordered matching is one of the behaviours it allows); messages of at most 4000 bytes are eager (send complete at the call), longer ones rendezvous (send completes at the match; a rank whose blocking send_am cannot be matched is not enabled); data lands in the receive buffer at the match; a completed request may be reported by any later MPI_Testsome (up to 4 completed requests per call: every subset, more: all / any single one / all but one); collectives of init/enable are not interleaved (both engines are enabled before the search starts, fresh mpi_funnelled_init..fini per explored run; the data-tag counter and the receive-share counter, which fini does not reset, are zeroed by the harness); contiguous byte datatypes only; the dedup of states assumes that the engine is deterministic, does not branch on addresses and reads a receive buffer only after the completion of its request was reported (hash collisions of the 128-bit state name ignored); failures whose run satisfies the predicate of a recorded known finding (mutual gets with dynamic_recv == dynamic stuck with every slot holding a get receive; put data and get data in flight in one direction with equal tags) are attributed to it, anything else is a violation.',
 )
 RULE = ("box = {1,2,3,default}^4 settings of (am_posted, am_tested, dynamic, dynamic_recv) x n in {2,3,4}; one session of the scripted "
         "workload per point on the real engine; states = distinct box points completed; transitions = engine operations checked by the "
         "rank oracles (AM deliveries + control deliveries + put/get completions on both sides); a session is non-trivial when on some rank "
         "a request overflowed into one of the engine's pending queues (dynamic send/recv fifo seen non-empty or a put deferred because "
         "can_serve() was false) AND one progress() call delivered more messages than the tested window holds; distinct outcomes = distinct "
-        "per-session tuples over ranks of (log2 buckets of: times the send fifo / the recv fifo were seen non-empty, puts deferred; largest delivery batch / tested window) - a timing-dependent signature, it shows that the runs differ in how the queues were used")
+        "per-session tuples over ranks of (log2 buckets of: times the send fifo / the recv fifo were seen non-empty, puts deferred; largest delivery batch / tested window) - a timing-dependent signature, it shows that the runs differ in how the queues were used. "
+        "vmpi-* legs: one scenario = (window parameters, eager limit, script of rank 0 / script of rank 1); transitions A(r) = next script call of rank r, P(r) = one progress() of rank r (enabled only when it would do something), and inside P(r) the subset of completed requests every MPI_Testsome reports; states = distinct pairs of per-rank observation hashes reached (summed over scenarios), transitions = transitions fired from them, executions = runs from fresh engines, "
+        "non-trivial = distinct goal states (both scripts finished, oracle and end-of-run audit hold) whose run used a pending queue, deferred a put, reported a strict subset of the completed requests or delivered AMs of one tag out of sending order; distinct outcomes = distinct pairs of per-rank callback sequences at goal states (per scenario, summed); mode full = search to closure, mode dN = at most N non-default choices (default = index 0 = progress before new calls, report everything completed)")
 ASSUME = ["MPI message timing / completion order is whatever OpenMPI 4.1.4 (ob1, vader) produces on this machine: not enumerated",
           "the script respects the engine's usage contracts listed in level_note",
-          "known finding C14-get-recv-window-deadlock: mutual gets are only scripted where dynamic_recv_requests < dynamic_requests"]
+          "known finding C14-get-recv-window-deadlock: mutual gets are only scripted where dynamic_recv_requests < dynamic_requests",
+          "vmpi-* legs: the virtual MPI's model of the standard (ordered matching, eager <= 4000 bytes < rendezvous, data lands at the match, any completed request may be reported by any later MPI_Testsome, persistent requests inactive after being reported) and its simplifications listed in META.level_note; 2 ranks; scripts and window parameters as listed in the legs",
+          "vmpi-* legs: state identity = pair of per-rank observation hashes (deterministic engine, no address-dependent branch, no read of a receive buffer before its completion is reported)"]
 KNOWN_ID = 'C14-get-recv-window-deadlock'
 KNOWN_ID2 = 'C14-get-put-data-tag-collision'
 VALS = [1, 2, 3, 0]     # 0 = default
@@ -292,6 +298,167 @@ def classify_known2(res):
     return True, ov + '; symptom: ' + sym
 
 
+# ------------------------------------------------------------------------------------------------------------------
+# tier 2: the real engine x2 over the virtual MPI (c14_v.c, vmpi.c, eng_r0.c, eng_r1.c) + conformance run (c14_real.c)
+# ------------------------------------------------------------------------------------------------------------------
+EAGER = 4000
+ALL_EAGER = 1 << 20
+
+
+def build_v(ctx):
+    return ctx.compile('hk-mpi', 'c14_v', ['c14_v.c', 'vmpi.c', 'eng_r0.c', 'eng_r1.c'], mpi=True, instr=False, cflags=['-Wno-format-truncation'])
+
+
+def build_real(ctx):
+    return ctx.compile('hk-mpi', 'c14_real', ['c14_real.c'], mpi=True, instr=False)
+
+
+def vmpi_plan(tier):
+    """[(leg, mode, scenario)] in the order the workers claim them (cheap and broad first, the big closures last).
+    Scenario = 'posted,tested,dyn,dynrecv:eager:ops of rank 0/ops of rank 1' (c14_script.h).  A rank's 'p' (put into me) together
+    with the OTHER rank's 'g' (get from me) sends put data and get data in one direction: such scripts only appear in vmpi-known
+    (known finding C14-get-put-data-tag-collision)."""
+    quick = tier == 'quick'
+    S = []
+
+    def add(leg, mode, cfgs, shapes, eager=EAGER):
+        for sh in shapes:
+            for c in cfgs:
+                S.append((leg, mode, '%d,%d,%d,%d:%d:%s' % (tuple(c) + (eager, sh))))
+    pt = [(1, 1), (2, 1), (2, 2), (3, 2)] + ([] if quick else [(3, 1), (3, 3)])
+    dy = [(1, 1), (2, 1), (2, 2)]
+    # -- known findings: dedicated reproducers
+    add('vmpi-known', 'full', [(1, 1, 1, 1), (2, 2, 1, 1)], ['g1/g1'])
+    add('vmpi-known', 'd4', [(2, 2, 2, 2)], ['g1.g1/g1.g1'])
+    add('vmpi-known', 'full', [(2, 2, 2, 2), (1, 1, 1, 1)], ['p1/g1', 'g1/p1'])
+    # -- self-check of the state identification: search with dedup vs plain enumeration of all choice sequences (tiny scripts)
+    xc = ['a1.a2/a3', 'p1/-', 'g1/-', 'a1.a2.a3/-', 'p1.a1/-', 'b8192.a1/-'] + ([] if quick else ['g1/g1', 'p1/a1', 'g4096/a1', 'a1.a0/a5', 'p4096.a1/-', 'b8192.b1/b0'])
+    add('vmpi-selfcheck', 'xcheck', [(2, 2, 2, 1), (1, 1, 1, 1)] + ([] if quick else [(2, 2, 2, 2), (2, 1, 2, 1)]), xc)
+    # -- active messages only, search to closure
+    am = ['a1.a0.a64/a5', 'a1.a2.a3/-', 'a1.b8192.a3/a2', 'b8192.b1/b0', 'a1.a2/a3.a4', 'b1.b8192.b2/-', 'a0.a0/a0', 'a64.b1/b2.a1']
+    if not quick:
+        am += ['a1.a2.a3.a4/-', 'b8192.b8192.b1/-', 'a1.b1.a2.b2/-', 'a1.a2.a3/a4.a5', 'a1.b8192/b8192']
+    add('vmpi-am', 'full', [p + (2, 1) for p in pt], am)
+    add('vmpi-am', 'full', [p + (2, 1) for p in pt if p[1] > 1], [x for x in am if 'b8192' in x], eager=ALL_EAGER)
+    # -- bounded-deviation legs on scripts whose closure is out of reach
+    dcf = [(1, 1, 1, 1), (2, 2, 2, 1), (2, 2, 2, 2), (2, 1, 3, 1), (2, 2, 3, 3), (3, 2, 3, 2)]
+    dev = ['p1.p1.p1/-', 'g1.g1.g1/-', 'g1.g1/g1.g1', 'p1.p4096.p0/-', 'p1.a1/a2.p0', 'p1.g1.a1/a2', 'p4096.g1/a3', 'a1.b8192.a3/a2.a0', 'p1.p1/p1', 'g1.g4096/g0', 'p1.p0.p1.p4096/-', 'g1.g1.g1/g1', 'a1.p1.a2/b8192', 'g4096.a1.g1/a2']
+    if quick:
+        add('vmpi-dev', 'd3', dcf, dev)
+    else:
+        add('vmpi-dev', 'd5', dcf, dev)
+        add('vmpi-dev', 'd4', dcf, ['p1.g1.p1/a1', 'a1.p1.a2.g1/a3.a4', 'p1.p1.p1.p1.p1/-', 'g1.g1.g1.g1/-', 'p4096.p4096/p4096.p4096', 'b8192.p1.b1/a1'])
+    # -- one or two transfers (with or without an AM), search to closure
+    xcf = [p + d for p in ((1, 1), (2, 2)) for d in dy] + ([] if quick else [(2, 1, 3, 2), (3, 2, 3, 3)])
+    xf = ['p0/-', 'p1/-', 'p4096/-', 'g0/-', 'g1/-', 'g4096/-', 'p1.a1/a2', 'g4096.a1/a2', 'g1.g4096/-', 'p1.p4096/-', 'p1.g1/-', 'g1/g1', 'p1/p1', 'g4096.p0/-']
+    if not quick:
+        xf += ['p4096.p1/-', 'g4096.g0/-', 'g1.p4096/-', 'p4096/p4096', 'g4096/g1', 'a1.p1/a5', 'g1.a1/b8192']
+    add('vmpi-xfer', 'full', xcf, xf)
+    if not quick:       # closures that take minutes each: last, under the deadline
+        add('vmpi-xfer', 'full', [(2, 2, 2, 2), (1, 1, 1, 1), (2, 1, 2, 1)], ['p1.p1.p1/-', 'g1.g1.g1/-', 'p1.a1/a2.p0', 'p4096.g1/a3', 'g1.g1/g1.g1'])
+    for leg, mode, sc in S:
+        r0, r1 = sc.split(':')[2].split('/')
+        collide = ('p' in r0 and 'g' in r1) or ('g' in r0 and 'p' in r1)
+        assert leg == 'vmpi-known' or not collide, sc
+    return S
+
+
+CONF_QUICK = ['2,1,2,1:4000:a1.a0.a64/a5', '2,2,2,2:4000:a1.b8192.a3/a2', '1,1,2,1:4000:b8192.b1/b0', '3,2,2,1:4000:a1.a2/a3.a4',
+              '1,1,1,1:4000:p1.p4096/-', '2,2,2,1:4000:g1.g4096/-', '2,2,1,1:4000:g4096.a1/a2', '1,1,2,2:4000:p1.a1/a2.p0',
+              '2,2,2,2:4000:p1.g1.a1/a2', '2,1,3,1:4000:p1.p0.p1.p4096/-', '2,2,2,1:4000:g1.g1/g1.g1', '1,1,1,1:4000:p0/p4096']
+
+
+def conformance(ctx, exe_v, exe_r, scens, timeout):
+    """The deviation-free run of every scenario on the virtual MPI, then the same steps on the real engine over the real MPI
+    (ONE 2-process launch for all scenarios); the callbacks seen in every step must be the same on both ranks."""
+    import subprocess
+    virt = {}
+    tdir = os.path.join('/tmp', 'verif-mp-C14c-%d' % os.getpid())
+    os.makedirs(tdir, exist_ok=True)
+    trace = os.path.join(tdir, 'trace.txt')
+    with open(trace, 'w') as f:
+        for sc in scens:
+            o = subprocess.run([exe_v, '--emit-trace', sc], capture_output=True, text=True, timeout=60)
+            try:
+                d = json.loads(o.stdout.strip().splitlines()[-1])
+            except Exception:
+                d = None
+            if o.returncode != 0 or not d or d.get('rc') != 0:
+                # the deviation-free run itself fails on the virtual MPI: the vmpi legs report it; nothing to compare
+                ctx.notes.append('conformance: the deviation-free virtual run of %s does not pass (%s); skipped' % (sc, (o.stdout + o.stderr)[-200:].replace('\n', ' | ')))
+                continue
+            virt[sc] = d
+            f.write('S %s\n' % sc)
+            for st in d['steps']:
+                f.write('%s %d %d\n' % (st['k'], st['r'], len(st['ev'])))
+            f.write('E\n')
+    if not virt:
+        return
+    l = mp.Launch(key='vmpi-conf', n=2, argv=[exe_r, '--trace', trace, '--step-timeout', '20'], env={'PARSEC_MCA_runtime_comm_thread_yield': '2'})
+    res = mp.run_one(l, tdir, timeout)
+    order = [sc for sc in scens if sc in virt]
+    agree, steps, samples, bad, undecided = 0, 0, [], [], []
+    for i, sc in enumerate(order):
+        rows = []
+        for r in (0, 1):
+            ss = res.ranks.get(r, {}).get('scenarios', [])
+            rows.append(ss[i] if i < len(ss) else None)
+        if any(x is None for x in rows):
+            undecided.append('%s: the real-MPI launch did not reach it (launch %s rc %s)' % (sc, res.status, res.rc))
+            continue
+        want = [[st['ev'] if st['r'] == r else [] for st in virt[sc]['steps']] for r in (0, 1)]
+        if any(x['status'] == 'fail' for x in rows):
+            msg = ' || '.join(x['message'] for x in rows if x['message'])
+            rp = ctx.write_replay('vmpi-conf-%d' % i, dict(engine='vmpi-conf', scenario=sc, message=msg[:1500]))
+            ctx.violation(rp, 'real-MPI run of scenario %s along the deviation-free trace: %s' % (sc, msg[:1200]))
+            continue
+        if any(x['status'] != 'ok' for x in rows):
+            undecided.append('%s: %s' % (sc, ' || '.join(x['message'] for x in rows if x['message'])[:300]))
+            continue
+        if rows[0]['steps'] == want[0] and rows[1]['steps'] == want[1]:
+            agree += 1
+            steps += len(virt[sc]['steps'])
+            if len(samples) < 3:
+                samples.append('%s: %d steps, rank 0 saw %s, rank 1 saw %s on the virtual and on the real MPI' % (
+                    sc, len(virt[sc]['steps']), [e for st in want[0] for e in st], [e for st in want[1] for e in st]))
+        else:
+            bad.append('%s: virtual %s / real %s' % (sc, json.dumps(want), json.dumps([rows[0]['steps'], rows[1]['steps']])))
+    import shutil
+    shutil.rmtree(tdir, ignore_errors=True)
+    for b in bad:
+        ctx.broken.append('the virtual MPI does not conform to the real one on the deviation-free run of ' + b[:1500])
+    for u in undecided:
+        ctx.notes.append('conformance not decided (real-MPI lock-step run did not complete; not counted): ' + u)
+    ctx.add_leg(name='vmpi-conformance', leg='vmpi', engine='mp', states=agree, transitions=steps, executions=agree, nontrivial=agree, distinct_outcomes=agree,
+                exhaustive=(agree == len(scens)), samples=samples, scenarios=len(scens), traces_validated_against_impl=agree,
+                launch_status=res.status, launch_seconds=round(res.elapsed, 1))
+
+
+def vmpi_legs(ctx, exe_v, exe_r):
+    quick = ctx.tier == 'quick'
+    try:
+        plan = vmpi_plan(ctx.tier)
+        sf = os.path.join('/tmp', 'verif-C14-vmpi-%d.scen' % os.getpid())
+        with open(sf, 'w') as f:
+            for leg, mode, sc in plan:
+                f.write('%s %s %s\n' % (leg, mode, sc))
+        known = ','.join(k for k in (KNOWN_ID, KNOWN_ID2) if known_entry(k) is not None)
+        from concurrent.futures import ThreadPoolExecutor
+        with ThreadPoolExecutor(max_workers=2) as ex:
+            cf = ex.submit(conformance, ctx, exe_v, exe_r, CONF_QUICK if quick else CONF_QUICK + [sc for (leg, mode, sc) in plan if leg in ('vmpi-am', 'vmpi-dev')][::7], 120 if quick else 600)
+            deadline = int(os.environ.get('C14_VMPI_DEADLINE', 45 if quick else 900))
+            ctx.run_engine(exe_v, ['--scen-file', sf, '--jobs', os.environ.get('C14_VMPI_JOBS', '6' if quick else '8'), '--deadline', str(deadline), '--scen-deadline', '25' if quick else '300',
+                                   '--known', known or 'none', '--outdir', '/verif/out'] + (['--strict-dup'] if os.environ.get('C14_VMPI_STRICT_DUP') else []), label='vmpi', timeout=deadline + 120)
+            cf.result()
+        os.unlink(sf)
+        for l in ctx.legs:
+            if l.get('leg') == 'vmpi' and not l.get('exhaustive') and not l.get('violations'):
+                ctx.notes.append('%s: %s of %s scenarios were cut by the deadline (their search did not close / did not finish the bound)' % (l.get('name'), l.get('scenarios_cut_by_deadline'), l.get('scenarios')))
+    except Exception as e:       # a problem of the check itself
+        import traceback
+        ctx.broken.append('vmpi legs: %s' % traceback.format_exc()[-800:])
+
+
 # dedicated runs for the known findings; each is classified by a predicate computed from what the ranks report
 REPRODUCERS = [
     dict(kid=KNOWN_ID, key='known1', n=2, pt=dict(n=2, c=(0, 0, 1, 1), big=0, mutual=5), only=0, phase_timeout=6, classify=classify_known,
@@ -304,6 +471,17 @@ REPRODUCERS = [
 def check(ctx):
     exe = build(ctx)
     quick = ctx.tier == 'quick'
+    # tier 2 runs BEFORE tier 1, never at the same time: the timing-sensitive parts of tier 1 (phase time-outs of real launches, the
+    # two reproducers) must not compete with the explorer's workers for the cores; and a violation found on the virtual MPI comes
+    # with a deterministic replay file, which is then the first one reported
+    if not os.environ.get('C14_NO_VMPI'):              # development switch: tier 1 only
+        exe_v, exe_r = build_v(ctx), build_real(ctx)
+        vmpi_legs(ctx, exe_v, exe_r)
+        if ctx.violations:
+            ctx.notes.append('tier 1 (real multi-process box) not run: the virtual-MPI legs already reported a violation')
+            return ctx.finish(RULE, ASSUME)
+    if os.environ.get('C14_ONLY_VMPI'):                # development switch: tier 2 only
+        return ctx.finish(RULE, ASSUME)
     t0 = time.time()
     deadline = t0 + (70 if quick else 1000)
     pts = box(ctx.tier)
@@ -356,6 +534,7 @@ def check(ctx):
                     samples=L['samples'], launches=L['launches'], am_order_inversions=L['inversions'], payload_bytes_checked=L['bytes'], box_points=want)
     if skipped:
         ctx.notes.append('deadline: %d box points not run' % len(skipped))
+    ctx.legs.sort(key=lambda l: 0 if str(l.get('name', '')).startswith('ce-box') else 1)
     if not acc.per_n:
         ctx.broken.append('no session completed')
     if not violations and any(L.get('same_tag', 0) for L in acc.per_n.values()):
@@ -364,6 +543,19 @@ def check(ctx):
 
 
 def replay(ctx, path, obj):
+    if obj.get('engine') == 'vmpi':
+        import subprocess
+        known = ','.join(k for k in (KNOWN_ID, KNOWN_ID2) if known_entry(k) is not None)
+        return subprocess.call([build_v(ctx), '--replay', path, '--known', known or 'none'])
+    if obj.get('engine') == 'vmpi-conf':
+        exe_v, exe_r = build_v(ctx), build_real(ctx)
+        before = len(ctx.violations)
+        conformance(ctx, exe_v, exe_r, [obj['scenario']], 120)
+        if len(ctx.violations) > before:
+            print('VIOLATION property=C14 replay=%s' % path)
+            return 1
+        print('replay: no violation reproduced')
+        return 0
     exe = build(ctx)
     root = os.path.join('/tmp', 'verif-mp-C14replay-%d' % os.getpid())
     argv = [exe, '--scale', str(obj.get('scale', 1)), '--phase-timeout', str(obj.get('phase_timeout', 25)), '--configs', obj['configs']]
